@@ -450,6 +450,27 @@ def run_batch_bin(binpath, cases_path, log_path, ncases, timeout=900, env=None, 
     return crashes, timed_out
 
 
+def rendering_trailer(log_path):
+    """None (no trailer), 'same', or (before, after): the harness renders one fixed PrettyParseError before the first and
+    after the last parse of the process"""
+    try:
+        with open(log_path, "rb") as f:
+            try:
+                f.seek(-20000, os.SEEK_END)
+            except OSError:
+                f.seek(0)
+            tail = f.read().decode("utf-8", "replace").splitlines()
+    except OSError:
+        return None
+    for line in reversed(tail):
+        if line.startswith("Y "):
+            f_ = line.split(" ")
+            if f_[1] == "same":
+                return "same"
+            return (unhex(f_[2]), unhex(f_[3]))
+    return None
+
+
 def parse_log(log_path):
     """-> {case_id: {mode: record}}; record = dict(events, result, steps, calls, pos, ctx, thread, t0, t1)"""
     out = {}
